@@ -6,6 +6,7 @@ import Ptn.C19.FromTensor
 import Ptn.C19.StarFork
 import Ptn.C19.Binary
 import Ptn.C19.Const
+import Ptn.C19.ConstAcceptStar
 import Ptn.C19.ParentLeg
 import Ptn.C19.ValueRec
 import Ptn.C19.ValueChain
@@ -668,6 +669,24 @@ theorem star_const_structure_partial (d L C : Nat) (st : Star) (h : starConst d 
         omega
       · exact hge
     omega
+
+/-- **Star `constant_product_state` completes, for ALL parameters** (`d`, chain length `L`, number of chains `C`,
+    zero included: `L = 0` makes no call, `C = 0` gives the bare centre of shape `(d)`): every `add_chain_node` call the
+    helper makes is accepted (the centre's first open leg exists and has dimension 1 when a chain is begun; the last
+    node of the chain has shape `(1, 1, d)`, so its first open leg is leg 1 of dimension 1 when the chain is
+    continued), and the result is the star of `star_structure` / `star_const_structure_partial`: `C` chains (when
+    `L > 0`) of `L` nodes each.  No acceptance hypothesis. -/
+theorem star_const_structure (d L C : Nat) :
+    ∃ st, starConst d L C = some st ∧
+    starRun (List.replicate C 1 ++ [d]) (starConstCalls d L C) = some st ∧
+    (∀ x ∈ starConstCalls d L C, x.1 < C ∧ (x.2 = [1, d] ∨ x.2 = [1, 1, d])) ∧
+    (∀ c, cntC (starConstCalls d L C) c = if c < C then L else 0) ∧
+    (∀ c, c < st.lens.length → st.lens[c]? = some L) ∧ (0 < L → st.lens.length = C) := by
+  obtain ⟨st, h⟩ := starConst_isSome d L C
+  exact ⟨st, h, star_const_structure_partial d L C st h⟩
+
+example : (starConst 0 3 2).isSome = true ∧ (starConst 2 0 3).isSome = true ∧ (starConst 2 1 0).isSome = true := by
+  decide
 
 /-- `constant_ftps(local_state, width, height, bond_dim)`: **if** the calls it makes are accepted, the main
     chain has `height` nodes and every sub-chain has `width - 1` nodes (so each row has `width` nodes: the
